@@ -50,7 +50,9 @@ impl<'a> ProjectionStrategy for SelectionProjection<'a> {
         } = &self.plan.command
         {
             let payload_set: HashSet<String> = all_payload.into_iter().collect();
-            let projected: HashSet<String> = list
+            // Keep the order in which RETURN lists the fields: every shard and every source
+            // computes this list on its own, and a hash set would order it differently each time
+            let projected: Vec<String> = list
                 .iter()
                 .filter(|f| {
                     ProjectionContext::is_core_field(f) || payload_set.contains(&f.to_string())
